@@ -33,6 +33,13 @@ tx mint_v3(quantity: Int) {
     output { to: Sender, amount: source - Ada(2000000) - fees, }
     cardano::plutus_witness { version: 3, script: 0x5101010023259800a518a4d136564004ae69, }
 }
+tx mint_v3_other_script(quantity: Int) {
+    input source { from: Sender, min_amount: Ada(2000000) + fees, }
+    mint { amount: AnyAsset(0x6b9c456aa650cb808a9ab54326e039d5235ed69f069c9664a8fe5b69, "ABC", quantity), redeemer: (), }
+    output { to: Receiver, amount: Ada(2000000) + AnyAsset(0x6b9c456aa650cb808a9ab54326e039d5235ed69f069c9664a8fe5b69, "ABC", quantity), }
+    output { to: Sender, amount: source - Ada(2000000) - fees, }
+    cardano::plutus_witness { version: 3, script: 0x5101010023259800a518a4d136564004ae70, }
+}
 tx mint_v2(quantity: Int) {
     input source { from: Sender, min_amount: Ada(2000000) + fees, }
     mint { amount: AnyAsset(0x6b9c456aa650cb808a9ab54326e039d5235ed69f069c9664a8fe5b69, "ABC", quantity), redeemer: (), }
@@ -149,24 +156,32 @@ fn play(c: &mut Compiler, s: Step) {
 }
 
 fn show(r: &Result<tx3_tir::compile::CompiledTx, Error>) -> String {
-    match r { Ok(x) => format!("Ok(fee {}, hash {}.., {} bytes)", x.fee, hex::encode(&x.hash[..4.min(x.hash.len())]), x.payload.len()), Err(e) => format!("Err({e})") }
+    match r {
+        Ok(x) => {
+            use std::hash::{Hash, Hasher};
+            let mut h = std::collections::hash_map::DefaultHasher::new();
+            x.payload.hash(&mut h);
+            format!("Ok(fee {}, hash {}.., payload of {} bytes with fingerprint {:08x})", x.fee, hex::encode(&x.hash[..4.min(x.hash.len())]), x.payload.len(), h.finish() as u32)
+        }
+        Err(e) => format!("Err({e})"),
+    }
 }
 
 fn main() {
     vf_pipeline::start_watchdog(45);
-    // BOUND: histories of length 0..=2 over 13 kinds of earlier use (two of them size a LARGER output at the index a later template sizes), 11 target templates (two with redeemers and Plutus
+    // BOUND: histories of length 0..=2 over 14 kinds of earlier use (two transactions that differ only in the bytes of the witnessed script - same body, same hash - and two that size a LARGER output at the index a later template sizes), 11 target templates (two with redeemers and Plutus
     // witnesses of different versions; a "kitchen sink" carrying every optional section - collateral, reference input,
     // witnessed script, metadata, validity, signers - as an earlier use, and bare mint / burn templates under the policy of
     // that witnessed script which carry none of those sections), one parameter setting, a store of two UTxOs.
     let steps = [
         Step::Resolve("one_output"), Step::Resolve("two_outputs"), Step::Resolve("uses_min_utxo"), Step::Resolve("min_utxo_first"),
         Step::ResolveFailing("two_outputs"), Step::Compile("one_output"), Step::Compile("two_outputs"),
-        Step::Resolve("mint_v3"), Step::Resolve("mint_v2"), Step::Resolve("delayed"), Step::Resolve("kitchen_sink"), Step::Resolve("big_min_utxo_first"), Step::Resolve("big_second"),
+        Step::Resolve("mint_v3"), Step::Resolve("mint_v3_other_script"), Step::Resolve("mint_v2"), Step::Resolve("delayed"), Step::Resolve("kitchen_sink"), Step::Resolve("big_min_utxo_first"), Step::Resolve("big_second"),
     ];
     let mut histories: Vec<Vec<Step>> = vec![vec![]];
     for a in steps { histories.push(vec![a]); }
     for a in steps { for b in steps { histories.push(vec![a, b]); } }
-    let targets = ["one_output", "two_outputs", "uses_min_utxo", "min_utxo_first", "mint_v2", "mint_v3", "reads_tip", "delayed", "kitchen_sink", "bare_mint", "bare_burn"];
+    let targets = ["one_output", "two_outputs", "uses_min_utxo", "min_utxo_first", "mint_v2", "mint_v3", "mint_v3_other_script", "reads_tip", "delayed", "kitchen_sink", "bare_mint", "bare_burn"];
     let mut cases = 0u64;
     for target in targets {
         let mut fresh = compiler(44, 155381, None);
